@@ -4,6 +4,7 @@
 //! `parallel` feature, real `rayon` on top of `rayon-core-sim`) it is the
 //! engine; without it (package `schedsim-oracle`) it is the serial oracle that
 //! answers "operation descriptor -> result bytes" over a pipe.
+mod hist;
 mod ops;
 
 use ops::{kinds, KindInfo, Op};
@@ -207,11 +208,12 @@ mod engine {
             }
         }
 
-        fn gen_op(&self, rng: &mut Rng) -> Op {
-            let total: u32 = self.ks.iter().map(|k| k.weight).sum();
+        fn gen_op(&self, prop: &str, rng: &mut Rng) -> Op {
+            let ks: Vec<&KindInfo> = self.ks.iter().filter(|k| k.prop == prop).collect();
+            let total: u32 = ks.iter().map(|k| k.weight).sum();
             let mut r = rng.below(total as usize) as u32;
-            let mut kind = &self.ks[0];
-            for k in &self.ks {
+            let mut kind = ks[0];
+            for k in ks.iter().copied() {
                 if r < k.weight {
                     kind = k;
                     break;
@@ -242,6 +244,54 @@ mod engine {
             }
         }
 
+        /// Reference-model answer for kinds that have one, and the serial build judged against it.
+        fn model_and_serial(&mut self, prop: &str, op: &Op) -> (Option<Vec<u8>>, Option<Violation>) {
+            let Some(k) = find_kind(&self.ks, &op.kind) else { return (None, None) };
+            let Some(ef) = k.expect else { return (None, None) };
+            let e = match catch_unwind(AssertUnwindSafe(|| ef(op))) {
+                Ok(Some(e)) => e,
+                Ok(None) => return (None, None),
+                Err(_) => {
+                    let (loc, msg) = take_panic();
+                    return (
+                        None,
+                        Some(Violation {
+                            prop: prop.into(),
+                            invariant: "H.model_panic".into(),
+                            sig: "H".into(),
+                            detail: format!("reference model panicked at {}: {}", loc, msg),
+                        }),
+                    );
+                },
+            };
+            let v = match self.ask(op, true) {
+                Ok((class, _, Some(bytes))) => {
+                    if class == "ok" && bytes == e {
+                        None
+                    } else {
+                        let first = e.iter().zip(bytes.iter()).position(|(x, y)| x != y);
+                        Some(Violation {
+                            prop: prop.into(),
+                            invariant: "M1.serial_differs_from_model".into(),
+                            sig: format!("sched|{}|M1.serial_differs_from_model", op.kind),
+                            detail: format!(
+                                "op {} a={} b={} c={:#x}: serial build class '{}', {} result bytes vs {} from the reference model, first difference at byte {:?}",
+                                op.kind, op.a, op.b, op.c, class, bytes.len(), e.len(), first
+                            ),
+                        })
+                    }
+                },
+                Ok((class, _, None)) => Some(Violation {
+                    prop: prop.into(),
+                    invariant: "M1.serial_differs_from_model".into(),
+                    sig: format!("sched|{}|M1.serial_differs_from_model", op.kind),
+                    detail: format!("op {} a={} b={} c={:#x}: serial build process ended with class '{}'", op.kind, op.a, op.b, op.c, class),
+                }),
+                Err(e) => Some(Violation { prop: prop.into(), invariant: "H.oracle_io".into(), sig: "H".into(), detail: e }),
+            };
+            (Some(e), v)
+        }
+
         /// Compare one parallel execution with the oracle answer.
         #[allow(clippy::too_many_arguments)]
         fn judge(
@@ -252,7 +302,25 @@ mod engine {
             po: &ParOut,
             oclass: &str,
             ohash: &str,
+            expected: Option<&Vec<u8>>,
         ) -> Option<Violation> {
+            if let Some(e) = expected {
+                // reference-model oracle (C05): the parallel build must give exactly the model's answer
+                if po.class == "ok" && &po.bytes == e {
+                    return None;
+                }
+                let first = e.iter().zip(po.bytes.iter()).position(|(x, y)| x != y);
+                return Some(Violation {
+                    prop: prop.to_string(),
+                    invariant: "M1.parallel_differs_from_model".into(),
+                    sig: format!("sched|{}|M1.parallel_differs_from_model", op.kind),
+                    detail: format!(
+                        "op {} a={} b={} c={:#x} on a pool of {} ({}): parallel build class '{}', {} result bytes vs {} from the reference model, first difference at byte {:?}",
+                        op.kind, op.a, op.b, op.c, cfg.n, if cfg.global { "global entry" } else { "install entry" },
+                        po.class, po.bytes.len(), e.len(), first
+                    ),
+                });
+            }
             if oclass == "died" {
                 return None; // the serial build itself aborts on this input: nothing to compare
             }
@@ -298,18 +366,19 @@ mod engine {
             "schedsim"
         }
         fn props(&self) -> Vec<&'static str> {
-            vec!["C14"]
+            vec!["C14", "C05"]
         }
-        fn total_runs(&self, _prop: &str, tier: &str) -> u64 {
-            if tier == "thorough" {
-                120_000
-            } else {
-                6_000
+        fn total_runs(&self, prop: &str, tier: &str) -> u64 {
+            match (prop, tier) {
+                ("C05", "thorough") => 100_000,
+                ("C05", _) => 4_000,
+                (_, "thorough") => 60_000,
+                _ => 2_000,
             }
         }
         fn run_seeded(&mut self, prop: &str, seed: u64, idx: u64, tier: &str, stats: &mut Stats, want_desc: bool) -> RunOut {
             let mut rng = Rng::new(mix(seed, 0xB, idx));
-            let op = self.gen_op(&mut rng);
+            let op = self.gen_op(prop, &mut rng);
             let k = if tier == "thorough" { 8 } else { 4 };
             let mut dg = Digest::default();
             dg.add_str(&op.kind);
@@ -331,6 +400,37 @@ mod engine {
             let mut violation = None;
             let mut desc = None;
             let mut evals = 0;
+            let (expected, serial_v) = self.model_and_serial(prop, &op);
+            let is_model = expected.is_some();
+            if is_model {
+                evals += 1;
+                stats.bump("model.serial_build_checked");
+                // C05: the history is non-trivial when a flush happens before finalize
+                // (accumulators), or there is at least one pair (direct entry points)
+                let hist = op.kind.starts_with("hist_");
+                let nt = if hist { op.b >= 1 && op.a >= op.b } else { op.a >= 1 };
+                nontrivial = nt;
+                if hist && nt {
+                    stats.bump("probe.flush_before_finalize");
+                    stats.add("probe.flushes_predicted", op.a / op.b.max(1));
+                }
+                if op.kind == "msm_direct" && op.b != u64::MAX && op.b != op.a {
+                    stats.bump("probe.length_mismatch");
+                }
+                dg.add(op.c);
+                dg.add(if op.b == 0 { 0 } else if op.b < op.a { 1 } else if op.b == op.a { 2 } else { 3 });
+                dg.add(op.a / op.b.max(1));
+            }
+            if let Some(v) = serial_v {
+                let cfg = Cfg { n: 1, global: false, steal_ppm: 0, bfirst_ppm: 0, sched_seed: 1, decisions: Some(vec![]) };
+                return RunOut {
+                    digest: dg.finish(),
+                    nontrivial,
+                    evals,
+                    violation: Some(v),
+                    desc: Some(json!({"entry": op.kind, "op": op.to_json(), "cfg": cfg.to_json(&[])})),
+                };
+            }
             for _ in 0..k {
                 let cfg = self.gen_cfg(&mut rng, &op);
                 let po = self.run_par(&op, &cfg);
@@ -344,7 +444,9 @@ mod engine {
                 stats.max("max.split_depth", po.counters.max_depth as u64);
                 if po.counters.joins > 0 {
                     stats.bump(&format!("kind.{}.forked_runs", op.kind));
-                    nontrivial = true;
+                    if !is_model {
+                        nontrivial = true;
+                    }
                 } else {
                     stats.bump(&format!("kind.{}.unforked_runs", op.kind));
                 }
@@ -359,7 +461,7 @@ mod engine {
                 dg.add(cfg.n as u64);
                 dg.add(cfg.global as u64);
                 dg.add(td.finish());
-                if let Some(v) = self.judge(prop, &op, &cfg, &po, &oclass, &ohash) {
+                if let Some(v) = self.judge(prop, &op, &cfg, &po, &oclass, &ohash, expected.as_ref()) {
                     desc = Some(json!({"entry": op.kind, "op": op.to_json(), "cfg": cfg.to_json(&po.trace)}));
                     violation = Some(v);
                     break;
@@ -371,9 +473,9 @@ mod engine {
             }
             RunOut { digest: dg.finish(), nontrivial, evals, violation, desc }
         }
-        fn describe(&mut self, _prop: &str, seed: u64, idx: u64, _tier: &str) -> Value {
+        fn describe(&mut self, prop: &str, seed: u64, idx: u64, _tier: &str) -> Value {
             let mut rng = Rng::new(mix(seed, 0xB, idx));
-            let op = self.gen_op(&mut rng);
+            let op = self.gen_op(prop, &mut rng);
             let cfg = self.gen_cfg(&mut rng, &op);
             json!({"entry": op.kind, "op": op.to_json(), "cfg": cfg.to_json(&[]), "note": "decisions not recorded (run did not complete); drawn_with gives the PRNG parameters"})
         }
@@ -400,8 +502,12 @@ mod engine {
                     }
                 },
             };
+            let (expected, serial_v) = self.model_and_serial(prop, &op);
+            if serial_v.is_some() {
+                return RunOut { digest: 0, nontrivial: true, evals: 1, violation: serial_v, desc: Some(desc.clone()) };
+            }
             let po = self.run_par(&op, &cfg);
-            let violation = self.judge(prop, &op, &cfg, &po, &oclass, &ohash);
+            let violation = self.judge(prop, &op, &cfg, &po, &oclass, &ohash, expected.as_ref());
             RunOut { digest: 0, nontrivial: po.counters.joins > 0, evals: 1, violation, desc: Some(desc.clone()) }
         }
         fn shrink_candidates(&self, desc: &Value) -> Vec<Value> {
